@@ -481,7 +481,7 @@ def run(ctx):
     n_progs, emitted = 0, 0
     rnd = random.Random(ctx.seed)
     g_in = os.path.join(ctx.work, "g_in.ndjson")
-    cap = 900 if q else 40000
+    cap = 900 if q else 150000
     with open(g_in, "w") as gf:
         for p in profiles:
             lines = []
@@ -542,7 +542,7 @@ def run(ctx):
     with open(e_out) as f:
         for line in f:
             ctx.distinct(hashlib.sha1(line.split('"obs"')[0].encode()).hexdigest())
-    ctx.cov["exhaustive"] = (not q) and not ctx.violations
+    ctx.cov["exhaustive"] = (not q) and not ctx.violations and n_progs == emitted + len(CORPUS)
     ctx.cov["explanation"] = ("exhaustive = every complete program of the four TLC scopes (%d programs emitted, %d replayed) and every encoding case of "
                               "AmlEnc was run on the real code and judged; the quick tier replays a seeded sample" % (emitted, n_progs))
 
